@@ -145,6 +145,10 @@ def run_case(case, work, rec):
     mism = []
     if m1.nlevels >= 2:
         mism.append(("fewer levels", gen.drop_finest(m2base)))
+    for lv in range(m1.nlevels - 1, -1, -1):
+        if len(m1.boxes[lv]) >= 2 and (lv >= 1 or m1.nlevels == 1):
+            mism.append((f"level {lv} lacks its last box (box list is a prefix of the other's)", gen.drop_last_box(m2base, lv)))
+            break
     g2 = dict(g); g2["seed"] = g["seed"] + 7
     other = gen.gen_model(names=n2, **g2)
     same_tiling = all([b.key() for b in other.boxes[lv]] == [b.key() for b in m1.boxes[lv]] for lv in range(min(other.nlevels, m1.nlevels)))
